@@ -517,4 +517,13 @@ class MessageQueue(Entity):
                 return [delivery_event]
             return []
 
+        if event_type == "republish":
+            # Emitted by DeadLetterQueue.reprocess()/reprocess_all(): the DLQ
+            # has already dropped the message, so put its payload back into
+            # this queue as a fresh message.
+            payload = event.context.get("payload")
+            if payload is not None:
+                yield from self.publish(payload)
+            return []
+
         return []
